@@ -221,6 +221,7 @@ func Run(c *vk.Ctx) {
 		}
 		rec(nil)
 	}
+	outputFiles(c, ps[names[0]], &idx)
 	webSequences(c, ps, names, &idx)
 	webConcurrent(c, ps, names, &idx)
 }
@@ -288,6 +289,52 @@ func sortStrings(s []string) {
 			if s[j] < s[i] {
 				s[i], s[j] = s[j], s[i]
 			}
+		}
+	}
+}
+
+// outputFiles: the output file named on a command line belongs to that command. Through pprof's own
+// file writer (real files in the sandbox), "first >F; second >F" must leave in F exactly what
+// "second >F" alone leaves there, for every ordered pair of report commands (the first report is
+// often the longer one).
+func outputFiles(c *vk.Ctx, data []byte, idx *int64) {
+	cmds := []string{"top", "tree", "traces", "raw", "top 1", "tags", "comments", "peek a", "dot"}
+	dir := filepath.Join(drive.Sandbox(), "c10out")
+	os.MkdirAll(dir, 0o755)
+	run := func(lines []string) bool {
+		ui := &drive.UI{Lines: lines}
+		fl := drive.MkFlags([]string{"p"})
+		delete(fl.Strings, "output")
+		r := drive.Run(&drive.Session{Fetch: &drive.Fetcher{Data: map[string][]byte{"p": data}}, Flags: fl, UI: ui, RealWriter: true})
+		return r.Panic == nil
+	}
+	n := 0
+	for _, first := range cmds {
+		for _, second := range cmds {
+			n++
+			if !c.Mine(*idx) {
+				*idx++
+				continue
+			}
+			*idx++
+			f1 := filepath.Join(dir, fmt.Sprintf("s%d_%d_both", c.Shard, n))
+			f2 := filepath.Join(dir, fmt.Sprintf("s%d_%d_alone", c.Shard, n))
+			c.Eval()
+			ok1 := run([]string{first + " >" + f1, second + " >" + f1})
+			ok2 := run([]string{second + " >" + f2})
+			b1, e1 := os.ReadFile(f1)
+			b2, e2 := os.ReadFile(f2)
+			os.Remove(f1)
+			os.Remove(f2)
+			w := witness{Profile: "output-file", History: []string{first + " >F", second + " >F"}}
+			if !ok1 || !ok2 || e1 != nil || e2 != nil {
+				c.Violationf("leak/output-file/not-written", w, "panic or missing file: %v %v %v %v", ok1, ok2, e1, e2)
+				continue
+			}
+			if string(b1) != string(b2) {
+				c.Violationf("leak/output-file", w, "file after both commands (%d bytes) differs from the file the second command writes alone (%d bytes)\n%s", len(b1), len(b2), firstDiff(string(b2), string(b1)))
+			}
+			c.Count("output-file-pairs", 1)
 		}
 	}
 }
